@@ -32,6 +32,9 @@ pub enum Act {
   SelfUnsub { outer: usize, trig: Trig },
   /// unsubscribe the k-th (1-based) inner observable that root r was handed by window_with_count / group_by
   InnerUnsub(usize, u32),
+  /// emit `.1` into hot source `.0`; the first time the library clones an item during that emission,
+  /// the item's Clone pushes `.2` into the same source (user code inside Item::clone). Real run only.
+  EmitCloneFeed(usize, Ev, Ev),
 }
 
 #[derive(Clone, Copy, Debug, PartialEq)]
@@ -92,6 +95,7 @@ impl Case {
         Act::Feed { outer, trig, src, ev } => format!("[#{}'s callback at {:?} pushes {} into s{}]", outer, trig, ev.show(), src),
         Act::SelfUnsub { outer, trig } => format!("[#{}'s callback at {:?} unsubscribes #{}]", outer, trig, outer),
         Act::InnerUnsub(r, k) => format!("unsub-inner#{}.{}", r, k),
+        Act::EmitCloneFeed(i, e, f) => format!("s{}!{} [the item's Clone pushes {} into s{}]", i, e.show(), f.show(), i),
         Act::Emit(i, e) => format!("s{}!{}", i, e.show()),
       })
       .collect();
@@ -591,6 +595,15 @@ pub fn run_real(case: &Case, opts: &RunOpts) -> Trace {
             srcs[*i].push(ev)
           }
         }
+        Act::EmitCloneFeed(i, ev, fed) => {
+          let p = rec.pushers.lock().unwrap().get(*i).cloned();
+          if let Some(p) = p {
+            let (p2, fed2) = (p.clone(), fed.clone());
+            crate::s_val::arm_clone_hook(Some(Box::new(move || p2(&fed2))));
+            p(ev);
+            crate::s_val::arm_clone_hook(None);
+          }
+        }
         Act::Unsub(r) => {
           if let Some(s) = &subs[*r] {
             s.unsubscribe()
@@ -741,6 +754,7 @@ pub fn run_ref(case: &Case) -> Trace {
       }
       Act::Nest { .. } => {}
       Act::Feed { .. } | Act::SelfUnsub { .. } => {}
+      Act::EmitCloneFeed(..) => panic!("MACHINERY: EmitCloneFeed has no reference semantics; reference-free oracles only"),
       Act::InnerUnsub(r, k) => {
         // only an inner observable the subscriber has been handed already can be unsubscribed
         if w.all.iter().any(|(rc, e)| *rc == rec_id(*r) && *e == Ev::N(D::Inner(*k))) {
